@@ -18,15 +18,70 @@ import (
 
 	codectypes "github.com/cosmos/cosmos-sdk/codec/types"
 	sdk "github.com/cosmos/cosmos-sdk/types"
+	govv1 "github.com/cosmos/cosmos-sdk/x/gov/types/v1"
 	govv1beta1 "github.com/cosmos/cosmos-sdk/x/gov/types/v1beta1"
 	"github.com/cosmos/gogoproto/proto"
+	"google.golang.org/protobuf/encoding/protowire"
+
+	crosschaintypes "github.com/functionx/fx-core/v8/x/crosschain/types"
 
 	"fxverif/lib"
 )
 
 // text classes: odd/even length hex in both cases, hex with 0x, non-hex, separators, blanks, numbers of every sign, long
 var hostileTexts = []string{"", "0", "abc", "ABC", "0102030", "00", "0x00", "0x0", "-", "zz", " ", "00 ", "-1", "1", "0.5",
-	"115792089237316195423570985008687907853269984665640564039457584007913129639936", "eth", "tron", "bank", "FX", "/", "ibc/0/px"}
+	"115792089237316195423570985008687907853269984665640564039457584007913129639936", "eth", "tron", "bank", "FX", "/", "ibc/0/px",
+	// boundary integers as decimal text (sdkmath.Int / Coin amounts travel as strings)
+	"9223372036854775807", "9223372036854775808", "18446744073709551615", "18446744073709551616",
+	"57896044618658097711785492504343953926634992332820282019728792003956564819968",
+	"115792089237316195423570985008687907853269984665640564039457584007913129639935"}
+
+// boundary values for varint fields (uint64 ids, nonces, heights, powers)
+var hostileVarints = []uint64{0, 1, 2, 1<<31 - 1, 1 << 31, 1<<32 - 1, 1 << 32, 1<<63 - 1, 1 << 63, ^uint64(0)}
+
+// sweep: every single-field mutation of an encoded instance, handed to f
+func (h *harness) sweep(bz []byte, depth int, f func(mbz []byte, how string)) {
+	paths := wirePaths(bz, depth)
+	for _, path := range paths {
+		for _, txt := range hostileTexts {
+			if mbz, ok := applyWire(bz, wireOp{Path: path, Op: "set", Set: []byte(txt)}); ok {
+				f(mbz, fmt.Sprintf("field %v set to %q", path, short(txt, 24)))
+			}
+		}
+		for _, v := range hostileVarints {
+			if mbz, ok := applyWire(bz, wireOp{Path: path, Op: "setvarint", Varint: v}); ok {
+				f(mbz, fmt.Sprintf("varint field %v set to %d", path, v))
+			}
+		}
+		for _, op := range []string{"drop", "empty", "dup"} {
+			if mbz, ok := applyWire(bz, wireOp{Path: path, Op: op}); ok {
+				f(mbz, fmt.Sprintf("%s field %v", op, path))
+			}
+		}
+	}
+	// absent varint fields (proto3 omits zero): add with each boundary value
+	fs, ok := parseWire(bz)
+	if ok {
+		present := map[int]bool{}
+		maxNum := 0
+		for _, fl := range fs {
+			present[int(fl.Num)] = true
+			if int(fl.Num) > maxNum {
+				maxNum = int(fl.Num)
+			}
+		}
+		for num := 1; num <= maxNum+2 && num <= 16; num++ {
+			if present[num] {
+				continue
+			}
+			for _, v := range []uint64{1, 1 << 63, ^uint64(0)} {
+				raw := protowire.AppendTag(append([]byte{}, bz...), protowire.Number(num), protowire.VarintType)
+				raw = protowire.AppendVarint(raw, v)
+				f(raw, fmt.Sprintf("absent field %d added as varint %d", num, v))
+			}
+		}
+	}
+}
 
 func setAuthority(m proto.Message, authority string) {
 	v := reflect.ValueOf(m).Elem()
@@ -233,6 +288,112 @@ func (h *harness) stageHandlers() {
 			}
 			if !strings.Contains(curl, "crosschain") {
 				break
+			}
+		}
+	}
+	// ---- instances that are valid against the populated state (world.go): the handlers get past their look-ups ----
+	budget := 0
+	for _, it := range h.statefulBases() {
+		bz, ok := marshalGuard(it.msg)
+		if !ok {
+			continue
+		}
+		res := h.runHandlerRes(it.url, bz, "state-valid instance ("+it.how+")")
+		h.rep.Count("handler:state-valid:" + strings.SplitN(res, ":", 2)[0])
+		n++
+		// quick tier: the full sweep on eth and tron, a thinned sweep on the other chains (same code, other router entry)
+		thin := h.scale <= 3 && !(strings.HasSuffix(it.how, " on eth") || strings.HasSuffix(it.how, " on tron") || !strings.Contains(it.how, " on "))
+		h.sweep(bz, 3, func(mbz []byte, how string) {
+			budget++
+			if thin && budget%6 != 0 {
+				return
+			}
+			h.runHandler(it.url, mbz, how+" of a state-valid "+it.url[strings.LastIndex(it.url, ".")+1:]+" ("+it.how+")")
+			n++
+		})
+		// governance route: the same message as the content of a v1 proposal (fx gov keeper's submit path)
+		if v := reflect.ValueOf(it.msg).Elem().FieldByName("Authority"); v.IsValid() {
+			if sm, ok := it.msg.(sdk.Msg); ok {
+				if m, err := govv1.NewMsgSubmitProposal([]sdk.Msg{sm}, sdk.NewCoins(lib.FX(1000)), h.w.user.Acc().String(), "", "t", "s", false); err == nil {
+					if pbz, ok := marshalGuard(m); ok {
+						h.runHandler("/cosmos.gov.v1.MsgSubmitProposal", pbz, "proposal carrying a state-valid "+it.url)
+						n++
+					}
+				}
+			}
+		}
+	}
+	// ---- claims: the inner claim is mutated on the wire, decoded with the registry, and handed to the real Claim handler
+	//      inside a MsgClaim built in memory (MsgClaim decoded from transaction bytes never carries its claim: no
+	//      UnpackInterfaces — the struct route is what relayers' tests and any future fix would exercise) ----
+	if h.w != nil {
+		for _, chain := range crosschaintypes.GetSupportChains() {
+			cw := h.w.chains[chain]
+			if cw == nil {
+				continue
+			}
+			if h.scale <= 3 && chain != "eth" && chain != "tron" {
+				continue
+			}
+			srv := cw.x.Msg()
+			bridger := cw.x.Oracles[0].Bridger.Acc().String()
+			for _, claim := range h.claimBases(cw) {
+				rv := reflect.ValueOf(claim).Elem()
+				rv.FieldByName("BridgerAddress").SetString(bridger)
+				rv.FieldByName("ChainName").SetString(chain)
+				url := "/" + proto.MessageName(claim)
+				cbz, ok := marshalGuard(claim)
+				if !ok {
+					continue
+				}
+				tname := url[strings.LastIndex(url, ".")+1:]
+				run := func(mbz []byte, how string) {
+					dm, o := decodeMsg(h.reg, url, mbz)
+					if o.Class != "ok" {
+						return
+					}
+					dc, ok := dm.(crosschaintypes.ExternalClaim)
+					if !ok {
+						return
+					}
+					if ov := guard(dc.ValidateBasic); ov.Class != "ok" {
+						if ov.Class == "panic" {
+							h.fail("validate", "recovered-by-baseapp", ov, tname+".ValidateBasic panics on "+how, map[string]interface{}{"stage": "handlers", "type_url": url, "msg_bytes_hex": fmt.Sprintf("%x", mbz), "how": how})
+						}
+						return
+					}
+					any, err := codectypes.NewAnyWithValue(dc)
+					if err != nil {
+						return
+					}
+					ctx, _ := h.c.Ctx.CacheContext()
+					oh := guard(func() error {
+						_, err := srv.Claim(ctx, &crosschaintypes.MsgClaim{ChainName: chain, BridgerAddress: bridger, Claim: any})
+						return err
+					})
+					n++
+					if oh.Class == "ok" {
+						// claims that are parked for execution (SendToFx, BridgeCall, BridgeCallResult): execute them as the
+						// executeClaim precompile / end blocker does
+						if _, found := cw.x.Keeper.GetPendingExecuteClaim(ctx, dc.GetEventNonce()); found {
+							oe := guard(func() error { return cw.x.Keeper.ExecuteClaim(ctx, dc.GetEventNonce()) })
+							h.rep.Count("handler:claim-execute:" + oe.Class)
+							h.rep.Case(fmt.Sprintf("claims-exec|%s|%s|%s|%s", tname, oe.Class, short(strings.SplitN(oe.Msg, ":", 2)[0], 30), oe.Site), true)
+							if oe.Class == "panic" {
+								oh = oe
+							}
+						}
+					}
+					h.rep.Count("handler:claim:" + oh.Class)
+					h.rep.Case(fmt.Sprintf("claims|%s|%s|%s|%s", tname, oh.Class, short(strings.SplitN(oh.Msg, ":", 2)[0], 30), oh.Site), true)
+					if oh.Class == "panic" {
+						h.fail("handler", "recovered-by-baseapp", oh, tname+" passes ValidateBasic and its execution by the quorum oracle panics on "+how+" ("+chain+")",
+							map[string]interface{}{"stage": "handlers", "type_url": url, "claim_bytes_hex": fmt.Sprintf("%x", mbz), "chain": chain, "how": how, "panic": oh.Msg, "top_frame": oh.Top,
+								"note": "claim decoded from these bytes, wrapped into an in-memory MsgClaim of the quorum oracle's bridger, executed by the real MsgServer.Claim on the populated state"})
+					}
+				}
+				run(cbz, "state-valid "+tname)
+				h.sweep(cbz, 3, func(mbz []byte, how string) { run(mbz, how+" of a state-valid "+tname) })
 			}
 		}
 	}
